@@ -184,6 +184,24 @@ DofLocsCoherent(e) ==
              /\ IF e.loc.ref[r] = <<>> THEN e.loc.glob[d + 1] = <<>>
                 ELSE e.loc.glob[d + 1] # <<>> /\ LocMatches(e, d, MapNum(e, k, e.loc.ref[r]))
 
+\* Transcription of the scatter in AbstractBasis.__init__ (abstract_basis.py:61-73): rows are written in increasing
+\* order, within a row the cells in increasing order, so the last (row, cell) that carries a number determines it
+DofLocsImpl(e) ==
+  [dd \in 1..e.N |->
+     LET rs == {r \in 1..NBfun(e.kind, e.sig) : \E k \in 1..NTc(e) : e.cell[k][r] = dd - 1} IN
+     IF rs = {} THEN <<>>
+     ELSE LET r == MaxSet(rs)
+              k == MaxSet({kk \in 1..NTc(e) : e.cell[kk][r] = dd - 1})
+          IN IF e.loc.ref[r] = <<>> THEN <<>> ELSE MapNum(e, k, e.loc.ref[r])]
+\* reference vertices of the first-order cells (skfem/refdom.py)
+RefP(kind) ==
+  CASE kind = "line" -> << <<0>>, <<1>> >>
+    [] kind = "tri"  -> << <<0,0>>, <<1,0>>, <<0,1>> >>
+    [] kind = "quad" -> << <<0,0>>, <<1,0>>, <<1,1>>, <<0,1>> >>
+    [] kind = "tet"  -> << <<0,0,0>>, <<1,0,0>>, <<0,1,0>>, <<0,0,1>> >>
+    [] kind = "hex"  -> HexOff
+    [] kind = "wedge" -> << <<0,0,0>>, <<1,0,0>>, <<0,1,0>>, <<0,0,1>>, <<1,0,1>>, <<0,1,1>> >>
+
 NumberClauses(e) ==
   IF ~NumWellFormed(e) THEN [WellFormed |-> FALSE]
   ELSE LET cd == CellSets(e)
@@ -311,7 +329,7 @@ QueryWellFormed(b, q) ==
                                                           [] q.sel.kind = "nodes" -> b.nv [] OTHER -> 0)
 PrimaryClause(q) ==
   CASE IsDictOp(q) -> "ByKindNames"
-    [] q.op.k = "or" -> "UnionView"
+    [] q.op.k = "or" -> IF q.skip # <<>> THEN "UnionViewSkip" ELSE "UnionView"
     [] q.op.k \in {"all", "keep", "drop", "keepdrop"} -> "NameFilter"
     [] q.skip # <<>> -> "SkipFilter"
     [] q.sel.kind = "none" -> "ArgumentFreeIsBoundary"
@@ -322,8 +340,12 @@ QueryClauses(b, q) ==
   ELSE LET first == IF IsDictOp(q) THEN DictOK(b, q, q.res[1])
                     ELSE q.res[1].err = "" /\ VSet(q.res[1].out) = ExpectedDofs(b, q)
            agree == \A j \in 2..Len(q.res) :
-                       IF IsDictOp(q) THEN DictOK(b, q, q.res[j])
-                       ELSE q.res[j].err = "" /\ q.res[1].err = "" /\ VSet(q.res[j].out) = VSet(q.res[1].out)
+                       /\ q.res[j].err = "" /\ q.res[1].err = ""
+                       /\ IF IsDictOp(q)
+                          THEN \A nm \in {q.res[j].dict[i].k : i \in DOMAIN q.res[j].dict}
+                                         \cup {q.res[1].dict[i].k : i \in DOMAIN q.res[1].dict} :
+                                  DictGot(q.res[j], nm) = DictGot(q.res[1], nm)
+                          ELSE VSet(q.res[j].out) = VSet(q.res[1].out)
            r1 == [c \in {PrimaryClause(q)} |-> first]
        IN [WellFormed |-> TRUE] @@ r1 @@ (IF Len(q.res) >= 2 THEN [SelectorFormsAgree |-> agree] ELSE <<>>)
 
@@ -333,10 +355,37 @@ ComplementClauses(b, q) ==
                                /\ VSet(q.out) = (0..(b.N - 1)) \ UNION {VSet(q.args[i]) : i \in DOMAIN q.args}
                                /\ IsInjectiveSeq(q.out) ]
 
-\* ---- optional law (mode L): DOFs whose basis function has a non-zero trace on the selected facets
-\* (value / normal / tangential component, recorded by the harness as a set) lie in the returned set
+\* ---- law (mode L): the trace on the selected facets depends on no DOF outside the returned set.
+\* Support event: sel (facets), comp in {"value", "normal", "tangential"}, got = the returned DOFs, entries = one
+\* record [d, v, n] per (selected facet, side, local basis function, quadrature point): d the global number of the
+\* function, v its value there (fixed-point limbs, one per component), n the facet normal (small integers; the
+\* harness records normal / tangential components only on axis-parallel facets).  Asserted only for the families
+\* whose functions attached to an entity outside the closure of a facet vanish on it in the relevant component
+\* (Lagrange-type H1: value; Raviart-Thomas / BDM: normal component; Nedelec: tangential component).
+TraceTol == FxTol(40)
+FxDot(v, n) == FxSumSeq([c \in DOMAIN v |-> FxMulSmall(v[c], n[c])])
+TraceComponent(en, comp) ==
+  CASE comp = "value"  -> en.v
+    [] comp = "normal" -> <<FxDot(en.v, en.n)>>
+    [] comp = "tangential" ->
+         IF Len(en.v) = 2 THEN <<FxSub(FxMulSmall(en.v[2], en.n[1]), FxMulSmall(en.v[1], en.n[2]))>>
+         ELSE << FxSub(FxMulSmall(en.v[3], en.n[2]), FxMulSmall(en.v[2], en.n[3])),
+                 FxSub(FxMulSmall(en.v[1], en.n[3]), FxMulSmall(en.v[3], en.n[1])),
+                 FxSub(FxMulSmall(en.v[2], en.n[1]), FxMulSmall(en.v[1], en.n[2])) >>
+SupportWellFormed(q) ==
+  /\ q.err = ""
+  /\ \A i \in DOMAIN q.entries :
+        /\ \A c \in DOMAIN q.entries[i].v : FxWF(q.entries[i].v[c])
+        /\ q.comp # "value" => Len(q.entries[i].n) = Len(q.entries[i].v) /\ Len(q.entries[i].v) \in {2, 3}
+                                /\ \A c \in DOMAIN q.entries[i].n : q.entries[i].n[c] \in -1..1
 TraceSupportClauses(b, q) ==
-  [ TraceSupport |-> VSet(q.support) \subseteq DofsOf(b, ClosureOfFacets(b, VSet(q.sel.ids)), AllNames(b)) ]
+  IF ~SupportWellFormed(q) THEN [WellFormed |-> FALSE]
+  ELSE [ WellFormed |-> TRUE,
+         TraceSupport |-> LET got == VSet(q.got) IN
+            \A i \in DOMAIN q.entries :
+               \/ q.entries[i].d \in got
+               \/ LET tc == TraceComponent(q.entries[i], q.comp) IN
+                  \A c \in DOMAIN tc : FxNear(tc[c], FxZero, TraceTol) ]
 
 \* ===========================================================================
 \* Transcription of the lookup code.  A view is [nix, fix, eix, iix, nrows, frows, erows, irows] (sets; the code's
